@@ -3,6 +3,7 @@ pub mod varint;
 pub mod sqlprobe;
 pub mod sql_where;
 pub mod budget;
+pub mod pagelocks;
 pub mod keyenc;
 pub mod keyenc_gen;
 pub mod keyenc_glue;
@@ -14,6 +15,7 @@ pub fn run(engine: &str, ctx: &Ctx) -> Report {
         "sqlprobe" => sqlprobe::run(ctx),
         "sql_where" => sql_where::run(ctx),
         "budget" => budget::run(ctx),
+        "pagelocks" => pagelocks::run(ctx),
         "keyenc" => keyenc::run(ctx),
         _ => {
             eprintln!("unknown engine {engine}");
